@@ -46,6 +46,7 @@ func NewReader(r io.Reader) io.ReadCloser {
 		rr.rBuf = br
 	} else {
 		rr.rBuf = bufio.NewReader(r)
+		rr.ownBuf = true
 	}
 	return rr
 }
@@ -57,6 +58,7 @@ type decompressor struct {
 	historyBuffer [2*historySize + lookAhead]uint8
 	r             io.Reader
 	rBuf          *bufio.Reader
+	ownBuf        bool // rBuf was allocated here, not handed in by the caller
 	err           error
 	peekSize      int
 	eof           bool
@@ -67,11 +69,16 @@ func (r *decompressor) Reset(under io.Reader, _ []byte) error {
 	r.r = under
 	if ur, ok := under.(*bufio.Reader); ok {
 		r.rBuf = ur
+		r.ownBuf = false
 	} else {
-		if r.rBuf != nil {
+		// only a buffer this Reader allocated may be re-pointed: a caller's
+		// *bufio.Reader from an earlier NewReader/Reset still belongs to the
+		// caller, together with whatever it holds after the previous stream
+		if r.rBuf != nil && r.ownBuf {
 			r.rBuf.Reset(under)
 		} else {
 			r.rBuf = bufio.NewReader(under)
+			r.ownBuf = true
 		}
 	}
 
